@@ -11,7 +11,7 @@
     (characterised by [successful_uploads_spec]). *)
 From Coq Require Import List NArith ZArith Bool Arith.
 From BBS Require Import Common.Sx Store.Model Store.Wf Store.P08Frame Store.P08Step Store.P08Quarantine
-  Store.P10Inv Store.P10Visible.
+  Store.P10Inv Store.P10Visible Store.P10Shape Store.P08Monitor Store.P10Monitor Run.RStore Run.R01 Run.R10.
 Import ListNotations.
 Open Scope N_scope.
 
@@ -111,6 +111,39 @@ Theorem readable_under_every_descendant : forall w es1 e es2 o i j tid s' outG, 
   forall b, outG <> Done cNotFound b.
 Proof. exact readable_under_every_descendant_trace. Qed.
 Print Assumptions readable_under_every_descendant.
+
+(** ---- 5. the monitor of Run/R10.v on runs of the model ---- *)
+(** [mon10] = C01's monitor (clauses 1 content, 2 provenance, 3 integrity
+    verdict without corruption) + clause 4 (readable under every descendant).
+    C10 owns clause 2 (hierarchical case) and clause 4: neither ever fires,
+    for every world with c_hier = true and every schedule (no thread-id
+    discipline needed).  Clauses 1 and 3 are C01's statement; given it, the
+    whole monitor is silent. *)
+Theorem monitor_is_model_monitor : forall inp,
+  mon10 inp (run_store inp) = mon10_model (dec_world inp) (dec_ops inp).
+Proof. exact mon10_model_eq. Qed.
+Print Assumptions monitor_is_model_monitor.
+
+Theorem clause2_provenance_never_fires : forall w es, c_hier (w_cfg w) = true -> ~ In 2%Z (mon01_raw w es).
+Proof. exact mon01_no_clause2. Qed.
+Print Assumptions clause2_provenance_never_fires.
+
+Theorem clause4_readability_never_fires : forall w es, c_hier (w_cfg w) = true -> mon10_clause4 w es = [].
+Proof. exact mon10_no_clause4. Qed.
+Print Assumptions clause4_readability_never_fires.
+
+Theorem store_model_satisfies_C10_partial : forall w es, c_hier (w_cfg w) = true ->
+  mon10_clause4 w es = [] /\
+  forall v, In v (mon10_model w es) -> v <> 2%Z /\ In v (mon01_model w es).
+Proof. exact mon10_model_only_data_clauses. Qed.
+Print Assumptions store_model_satisfies_C10_partial.
+
+(** full statement  [forall w es, c_hier (w_cfg w) = true -> mon10_model w es = []]
+    = the following with C01's theorem [mon01_model w es = []] plugged in *)
+Theorem store_model_satisfies_C10_given_C01 : forall w es, c_hier (w_cfg w) = true ->
+  mon01_model w es = [] -> mon10_model w es = [].
+Proof. exact P10Monitor.store_model_satisfies_C10_given_C01. Qed.
+Print Assumptions store_model_satisfies_C10_given_C01.
 
 (** ---- non-vacuity ---- *)
 Definition ex_cfg : config :=
